@@ -27,6 +27,7 @@ import queue
 import sys
 import threading
 import time
+import traceback
 from dataclasses import dataclass
 from enum import Enum
 from io import BytesIO
@@ -303,7 +304,15 @@ class DriverActor(actor.RallyActor):
             self.post_process_timer += DriverActor.WAKEUP_INTERVAL_SECONDS
             if self.post_process_timer >= DriverActor.POST_PROCESS_INTERVAL_SECONDS:
                 self.post_process_timer = 0
-                self.driver.post_process_samples()
+                try:
+                    self.driver.post_process_samples()
+                except BaseException:
+                    # A wake-up is a message to ourselves. ``no_retry`` would put the failure into our own inbox, behind messages
+                    # of the workers that are already waiting there - e.g. the one for the last join point, which completes the
+                    # benchmark and lets race control publish results. Hence, we report the failure right away.
+                    self.logger.exception("Cannot post-process samples.")
+                    self.receiveMsg_BenchmarkFailure(actor.BenchmarkFailure(traceback.format_exc()), sender)
+                    return
             self.driver.update_progress_message()
             self.wakeupAfter(datetime.timedelta(seconds=DriverActor.WAKEUP_INTERVAL_SECONDS))
 
